@@ -53,6 +53,15 @@ RF == { Scen(sz, {}, 0, <<>>, FALSE) : sz \in { <<TooBig>>, <<12, TooBig>>, <<To
 IdU == {"mine", "other", "other2"}
 Inboxes == UNION { [1..n -> IdU] : n \in 0..4 }
 IDS == { [tr |-> tr, inbox |-> ib, dl |-> d] : tr \in {"stream", "dgram"}, ib \in Inboxes, d \in 0..4 }
+\* many stale / foreign replies before the genuine one, or nothing but stale ones until the deadline: the rule has no
+\* bound on how many are skipped
+Stale(n) == [i \in 1..n |-> IF i % 2 = 1 THEN "other" ELSE "other2"]
+ManyN == {0, 1, 2, 8, 9, 10, 16, 33, 64}
+IDL == UNION { { [tr |-> tr, inbox |-> Stale(n) \o <<"mine">>, dl |-> n + 1],      \* the genuine reply comes last, in time
+                 [tr |-> tr, inbox |-> Stale(n) \o <<"mine">>, dl |-> n],          \* ... too late
+                 [tr |-> tr, inbox |-> Stale(n), dl |-> n],                        \* only stale ones until the deadline
+                 [tr |-> tr, inbox |-> Stale(n) \o <<"mine">> \o Stale(n), dl |-> 2 * n + 1] }
+               : tr \in {"stream", "dgram"}, n \in ManyN }
 
 Init ==
   \/ Mode = "frames1" /\ v \in F1
@@ -60,7 +69,7 @@ Init ==
   \/ Mode = "eof"     /\ v \in { r \in EO : Len(r.sz) = 1 \/ r.unit \/ Hash(r) = Shard }
   \/ Mode = "shortw"  /\ v \in { r \in SW : Len(r.sz) = 1 \/ Hash(r) = Shard }
   \/ Mode = "refuse"  /\ v \in RF
-  \/ Mode = "id"      /\ v \in { r \in IDS : r.dl <= Len(r.inbox) }
+  \/ Mode = "id"      /\ v \in { r \in IDS : r.dl <= Len(r.inbox) } \cup IDL
 Next == UNCHANGED v
 
 StreamVector(r) ==
